@@ -458,7 +458,9 @@ def build(seed, tier, focus='all'):
             if d.pop("deep", False):
                 cap = 3
             if any(f["ty"]["k"] == "enum" for f in d["fields"]) and not elem:
+                # every variant's forms stay in the alphabet; three items over that many letters would be 40 000 inputs per root
                 cap = max(cap, 34)
+                d["max_items"] = min(d["max_items"], 2)
             d["alpha"] = cap_alphabet(al, cap, rng)
     return c
 
